@@ -7,7 +7,7 @@
   * `delivered_equals_recorded`   … and with exactly the recorded content when text contents are UTF-8
   * `binary_exact`, `text_exact`  Fragmentizer: the fragments concatenate to the content
   * `unmodified_keeps_boundaries` an unmodified message is sent with its original fragments
-  * `pings_pongs_relayed`, `close_code_reason_recorded`
+  * `injected_recorded_once`, `pings_pongs_relayed`, `close_code_reason_recorded`
 -/
 import MitmVerif.Lemmas.C28
 namespace MitmVerif.Props.C28
@@ -393,6 +393,78 @@ theorem text_buffer_stays_valid (buf : List Bytes) (d : Bytes)
   rcases hf with hf | rfl
   · exact h1 f hf
   · exact san_nil
+
+/-! ### injection -/
+
+private theorem appendLast_flatten (buf : List Bytes) (d : Bytes) : (appendLast buf d).flatten = buf.flatten ++ d := by
+  induction buf with
+  | nil => simp [appendLast]
+  | cons x rest ih =>
+    cases rest with
+    | nil => simp [appendLast]
+    | cons y rest' => simp only [appendLast, List.flatten_cons, List.append_assoc] at ih ⊢; rw [ih]
+
+private theorem setBuf_buf (s : St) (fc : Bool) (b : List Bytes) : (s.setBuf fc b).buf fc = b := by
+  cases fc <;> rfl
+
+private theorem procMsg_msgs_fin (fs : Nat) (pol : Policy) (fc inj : Bool) (s : St) (text : Bool) (data : Bytes) (ff : Bool) :
+    (procMsg fs pol fc inj s text data ff true).1.msgs =
+      s.msgs ++ [applyAction (Msg.mk text fc ((s.buf fc).flatten ++ data) inj false)
+                  (pol s.msgs.length (Msg.mk text fc ((s.buf fc).flatten ++ data) inj false))] := by
+  unfold procMsg
+  simp only [if_true, appendLast_flatten]
+  split
+  · simp
+  · split <;> simp
+
+private theorem inj_aux (fs : Nat) (pol : Policy) (fc text : Bool) (frames : List (Bytes × Bool)) :
+    wellFramed frames = true → ∀ s : St, s.crashed = false →
+    (procEvs fs pol fc true s (frames.map (fun pf => WsEv.msg text pf.1 true pf.2))).1.msgs =
+      s.msgs ++ [applyAction (Msg.mk text fc ((s.buf fc).flatten ++ (frames.map (·.1)).flatten) true false)
+                  (pol s.msgs.length (Msg.mk text fc ((s.buf fc).flatten ++ (frames.map (·.1)).flatten) true false))] := by
+  induction frames with
+  | nil => intro h; simp [wellFramed] at h
+  | cons pf rest ih =>
+    obtain ⟨p, fin⟩ := pf
+    cases rest with
+    | nil =>
+      intro h s hc
+      simp only [wellFramed] at h
+      subst h
+      simp only [List.map_cons, List.map_nil, procEvs, procEv, hc, Bool.false_eq_true, if_false,
+        List.flatten_cons, List.flatten_nil, List.append_nil]
+      exact procMsg_msgs_fin fs pol fc true s text p true
+    | cons q rest' =>
+      intro h s hc
+      simp only [wellFramed, Bool.and_eq_true, Bool.not_eq_true'] at h
+      obtain ⟨hfin, hwf⟩ := h
+      subst hfin
+      have hstep : procEv fs pol fc true s (WsEv.msg text p true false)
+          = (s.setBuf fc (appendLast (s.buf fc) p ++ [[]]), []) := by
+        simp [procEv, hc, procMsg]
+      have := ih hwf (s.setBuf fc (appendLast (s.buf fc) p ++ [[]])) (by simpa using hc)
+      simp only [List.map_cons, procEvs, hstep] at this ⊢
+      rw [this]
+      simp [setBuf_buf, appendLast_flatten, List.append_assoc]
+
+/-- **C28 (injection).** An injected message is recorded exactly once, as its own message with
+    the injected type and content (for text: its decode-with-replacement image), whatever
+    fragments of a message still being received are buffered — and those are left untouched
+    (the repaired F-C28b). -/
+theorem injected_recorded_once (fs : Nat) (pol : Policy) (s : St) (fc text : Bool) (content : Bytes)
+    (hnd : s.done = false) (hc : s.crashed = false) :
+    (step fs pol s (.inject fc text content)).1.msgs =
+      s.msgs ++ [applyAction (Msg.mk text fc (payload text content) true false)
+                  (pol s.msgs.length (Msg.mk text fc (payload text content) true false))] ∧
+    (step fs pol s (.inject fc text content)).1.buf fc = s.buf fc := by
+  simp only [step, hnd, hc, Bool.or_self, Bool.false_eq_true, if_false]
+  refine ⟨?_, setBuf_buf _ _ _⟩
+  have h := inj_aux fs pol fc text (fragmentize fs [] text content) (fragmentize_wellFramed _ _ _ _)
+    (s.setBuf fc [[]]) (by simpa using hc)
+  simp only [injectEvents]
+  rw [setBuf_msgs] at h ⊢
+  rw [h]
+  simp [setBuf_buf, fragmentize_wire]
 
 /-! ### control frames and close -/
 
